@@ -114,7 +114,7 @@ func TestC18(t *testing.T) {
 				do(goit("commit", "-m", g.Message(true)))
 				switch g.Int(0, 9, "between") {
 				case 0:
-					do(nextStep(g, Weights{"switch-c": 1}))
+					do(nextStep(g, Weights{"switch-c": 1, "switch-c-meta": 1}))
 				case 1:
 					do(nextStep(g, Weights{"branch-r": 1}))
 				case 2:
